@@ -90,6 +90,7 @@ pub struct Interp<'a> {
     data_key: u8,
     sizes_before_restart: Option<(u64, Vec<u64>)>,
     events: u32,
+    abort: bool,
 }
 
 fn sid() -> Identifier {
@@ -137,6 +138,7 @@ impl<'a> Interp<'a> {
             data_key: case.cfg.encryption,
             sizes_before_restart: None,
             events: 0,
+            abort: false,
         }
     }
 
